@@ -234,3 +234,75 @@ Fixpoint last_stored {A} (ops : list (Z * Z * A)) (x y : Z) : option A :=
       | None => if (x' =? x) && (y' =? y) then Some v else None
       end
   end.
+
+(* ---- the property as a refinement: programs of mutating calls ---- *)
+
+(* the calls through which a program can change an array *)
+Inductive call (A : Type) :=
+| KSet (x y : Z) (v : A)                 (* a.Set(x, y, v) *)
+| KFill (x1 y1 x2 y2 : Z) (v : A)        (* a.Fill(x1, y1, x2, y2, v) *)
+| KRowWrite (y i : Z) (v : A)            (* a.Row(y)[i] = v *)
+| KSpanWrite (x1 x2 y i : Z) (v : A).    (* a.RowSpan(x1, x2, y)[i] = v *)
+Arguments KSet {A}. Arguments KFill {A}. Arguments KRowWrite {A}. Arguments KSpanWrite {A}.
+
+Definition run_call {A} (a : array2d A) (k : call A) : amut :=
+  match k with
+  | KSet x y v => set a x y v
+  | KFill x1 y1 x2 y2 v => fill a x1 y1 x2 y2 v
+  | KRowWrite y i v =>
+      match row a y with
+      | Ok win => with_cells a (win_store (cells a) win i v)
+      | Panic p => (a, Some p)
+      end
+  | KSpanWrite x1 x2 y i v =>
+      match row_span a x1 x2 y with
+      | Ok win => with_cells a (win_store (cells a) win i v)
+      | Panic p => (a, Some p)
+      end
+  end.
+
+(* a program recovers from a panicking call and goes on (as the harness does);
+   result: the array at the end and, per call, whether it panicked *)
+Fixpoint run_calls {A} (a : array2d A) (ks : list (call A)) : array2d A * list bool :=
+  match ks with
+  | [] => (a, [])
+  | k :: rest =>
+      let '(a', p) := run_call a k in
+      let '(a'', ps) := run_calls a' rest in
+      (a'', (match p with Some _ => true | None => false end) :: ps)
+  end.
+
+(* The cell model of the property: width x height independent cells, a function from coordinates to values. *)
+Definition grid (A : Type) := Z -> Z -> A.
+
+Definition inb (w h x y : Z) : bool := (0 <=? x) && (x <? w) && (0 <=? y) && (y <? h).
+
+Definition upd {A} (g : grid A) (x y : Z) (v : A) : grid A :=
+  fun x' y' => if (x' =? x) && (y' =? y) then v else g x' y'.
+
+Definition ref_call {A} (w h : Z) (g : grid A) (k : call A) : grid A * bool :=
+  match k with
+  | KSet x y v => if inb w h x y then (upd g x y v, false) else (g, true)
+  | KFill x1 y1 x2 y2 v =>
+      if inb w h x1 y1 && inb w h x2 y2
+      then (fun x y => if in_rect x1 y1 x2 y2 x y then v else g x y, false)
+      else (g, true)
+  | KRowWrite y i v => if inb w h i y then (upd g i y v, false) else (g, true)
+  | KSpanWrite x1 x2 y i v =>
+      if inb w h x1 y && inb w h x2 y && (0 <=? i) && (i <=? x2 - x1)
+      then (upd g (x1 + i) y v, false)
+      else (g, true)
+  end.
+
+Fixpoint ref_calls {A} (w h : Z) (g : grid A) (ks : list (call A)) : grid A * list bool :=
+  match ks with
+  | [] => (g, [])
+  | k :: rest =>
+      let '(g', p) := ref_call w h g k in
+      let '(g'', ps) := ref_calls w h g' rest in
+      (g'', p :: ps)
+  end.
+
+(* array [a] holds exactly the cells of [g] *)
+Definition agrees {A} (a : array2d A) (g : grid A) : Prop :=
+  forall x y, in_bounds a x y -> get a x y = Ok (g x y).
